@@ -276,7 +276,7 @@ def plan(mu):
     prim = mu.get('primary') or []
     cand = [p for p in allp if COST.get(p, 99) <= 30 or p in prim[:3]]
     cand.sort(key=lambda p: (p not in prim, COST.get(p, 99)))
-    return cand[:6]
+    return cand[:3]
 
 
 def run_checks(job):
@@ -305,11 +305,15 @@ def cmd_checks(args):
     done = {}
     if os.path.exists(rp):
         done = {int(k): v for k, v in json.load(open(rp)).items()}
-    todo = [(m, args.tier) for m in surv if m['id'] not in done]
+    # bookkeeping that no property speaks about (traffic statistics, profiling counters, latency history) is skipped
+    skip = re.compile(r'self\.stats\.(pkts|bytes|latency|received|sent|dropped)|self\.perf|\.latency\b|last_latency')
+    todo = [(m, args.tier) for m in surv if m['id'] not in done and not skip.search(m['old'])]
     if args.max:
         todo = todo[:args.max]
     with cf.ThreadPoolExecutor(args.j) as ex:
-        for n, (i, res) in enumerate(ex.map(run_checks, todo)):
+        futs = [ex.submit(run_checks, job) for job in todo]
+        for n, f in enumerate(cf.as_completed(futs)):
+            i, res = f.result()
             done[i] = res
             json.dump(done, open(rp, 'w'))
             print('checks %d/%d  m%d %s' % (n + 1, len(todo), i, {p: r['rc'] for p, r in res.items()}), flush=True)
